@@ -13,7 +13,8 @@ def model(ctx, g, cls, wset, witness):
                    "ScalarChoices": "<- MC_ScalarChoices", "Attacker": "<- MC_Attacker"})
     label = "MC_Sides[%s,%s,|w|=%d,256 side bytes x all elements + empty, fresh+restored]" % (g, cls, len(wset))
     ctx.mc("MC_Sides", cfg(view="ViewNoLast", spec="SidesSpec", constants=consts,
-                           invariants=["SideRefusals", "NeverKeyForWrongSide", "AtMostOneKey", "KeyOnlyFromCanonical"]),
+                           invariants=["SideRefusals", "NeverKeyForWrongSide", "AtMostOneKey", "KeyOnlyFromCanonical", "LifecycleInv"],
+                           properties=["RefinesLifecycle"]),
            label=label)
     if witness:
         ws = ["NoWitnessReflectedRestored", "NoWitnessOffSides", "NoWitnessKey"]
